@@ -9,6 +9,8 @@ Local Open Scope Z_scope.
 Local Ltac Zify.zify_post_hook ::= idtac.
 
 Local Notation cos := civil_of_seconds.
+(* kernel conversion must not look inside the calendar functions (as in CivilNorm.v) *)
+Local Strategy 100 [civil_of_seconds civil_of_days days_from_civil].
 
 Lemma P400_val : P400 = 12622780800.
 Proof. reflexivity. Qed.
@@ -703,3 +705,21 @@ Proof.
     rewrite <- (Core Z offf cur). f_equal. rewrite <- Hl, map_map.
     apply map_ext_in. intros x Hx. unfold liftg. cbn [fst snd]. rewrite (Hoff x Hx). reflexivity.
 Qed.
+
+(* Status: break_future_lemma, make_future_lemma, rule_state_periodic_lemma and the
+   stretch rule_window_lemma (+ rule_ok_radj) are proved; nothing is left open and
+   `Print Assumptions` reports "Closed under the global context" for each.
+
+   Remark on make_future_lemma: the hypothesis
+     forall l, last_opt (z_trans z) = Some l -> fy (tr_pcs l) <= z_last_year z
+   was ADDED.  Without it the statement is false: MakeTime enters the extended_
+   branch only when cs > last.prev_civil_sec, and when the last transition is a
+   fall-back across New Year prev_civil_sec lies in year last_year + 1.
+   Counterexample (vm_compute): types [off 0; off 3600], default 0, transitions
+   [(-1000000 -> type 1); (T -> type 0)] with T = sec_of 2400-12-31T23:30:00 =
+   13601086200, extended, last_year = 2400 (zone_ok = true, tr_cs last has year
+   2400, P400 <= T, tr_pcs last = 2401-01-01T00:29:59).  For cs = 2401-01-01T00:10:00
+   make_time returns REPEATED (13601085000, 13601086200, 13601088600) whereas the
+   right-hand side (k = 1, cs' = 2001-01-01T00:10:00) is UNIQUE 13601085000.
+   The saturating corner of TimeLocal (k > max64 / P400) needs no extra hypothesis:
+   it is covered by the Z.min form (zmake_bounds gives v >= -172800). *)
